@@ -135,7 +135,7 @@ class Case:
     """one argument recipe for one pair on one receiver"""
 
     def __init__(self, recv, args=None, label="", rnd=False, gauge=False, noself=False, tol=1e-8, permtol=1e-7,
-                 noperm=None, collapse=False, noinpl=None, orderdep=None):
+                 noperm=None, collapse=False, noinpl=None, orderdep=None, post=None):
         self.recv = recv
         self.args = args or (lambda x, h: ((), {}))
         self.label = label
@@ -148,6 +148,8 @@ class Case:
         self.orderdep = orderdep  # reason why the value itself may follow the insertion order of the tensors (truncation
                                   # sweeps, unconverged iterations): the re-inserted run is then only checked for purity
         self.noinpl = noinpl    # reason why the in-place spelling is outside its documented domain for these arguments
+        self.post = post        # post(result, kwargs) -> the object that stands for the result (e.g. gauges kept outside the
+                                # network by gate_simple are absorbed into a copy before comparing)
         self.collapse = collapse  # contraction of everything: `f` returns the tensor / number, `f_` the network
                                   # holding it (documented); compare them as tensor / number
 
@@ -193,7 +195,11 @@ def observe_call(tid, ident, case, seed, modes, build, plain_fn, inpl_fn, contig
     cargs = U.Canon(argobjs, known) if clash else None
     r1, exc1 = _call(plain_fn(x), a, kw, 777 + seed)
 
-    post = U.collapse if case.collapse else (lambda o: o)
+    def post(o, kwargs=None):
+        if case.post is not None and kwargs is not None:
+            o = case.post(o, kwargs)
+        return U.collapse(o) if case.collapse else o
+
     rec = {"ev": "call", "tid": tid, "randomised": bool(case.rnd), "docself": not case.noself, "hasinpl": inpl_fn is not None,
            "gauge": bool(case.gauge), "orderdep": bool(case.orderdep)}
     rec.update(ident)
@@ -214,7 +220,7 @@ def observe_call(tid, ident, case, seed, modes, build, plain_fn, inpl_fn, contig
     if exc1:
         rec["plain"] = {"exc": exc1, "st": EXC_ST, "stw": EXC_ST, "stv": EXC_ST, "dq": 0, "isrecv": False}
     else:
-        c1 = U.Canon(post(r1), known, keep_out)
+        c1 = U.Canon(post(r1, kw), known, keep_out)
         rec["plain"] = {"exc": "", "st": c1.struct(), "stw": c1.struct(weak=1), "stv": c1.struct(weak=2), "dq": 0,
                         "isrecv": bool(any(o is x for o in ([r1] + (list(r1) if isinstance(r1, (list, tuple)) else []))))}
         mine = {id(t) for o in [x] + argobjs for t in ([o] if U.is_tensor(o) else (o.tensor_map.values() if U.is_tn(o) else []))}
@@ -233,7 +239,7 @@ def observe_call(tid, ident, case, seed, modes, build, plain_fn, inpl_fn, contig
             ip.update({"st": EXC_ST, "dq": 0})
         else:
             res2 = y if r2 is None else r2
-            c2 = U.Canon(post(res2), known, keep_out)
+            c2 = U.Canon(post(res2, kw2), known, keep_out)
             ip["st"] = c2.struct()
             ip["dq"] = U.compare(c1, c2, case.tol) if c1 is not None else 0
         rec["inpl"] = ip
@@ -255,7 +261,7 @@ def observe_call(tid, ident, case, seed, modes, build, plain_fn, inpl_fn, contig
             if exc3:
                 p.update({"st": EXC_ST, "dq": 0})
             else:
-                c3 = U.Canon(post(r3), known, keep_out)
+                c3 = U.Canon(post(r3, kw3), known, keep_out)
                 p["st"] = c3.struct()
                 if c1 is None or case.rnd:
                     p["dq"] = 0
